@@ -38,7 +38,7 @@ PROBES = ["split_remainder_nonzero", "insufficient_funds_refused", "less_than_on
           "cache_roundtrip_bytes", "torn_cache_file_read", "provider_lookup_cached", "observed_stuck_after_heal",
           "observed_txdb_returned_unrequested_tx", "spendable_form_text", "spendable_form_dict", "display_roundtrip",
           "attach_unspents", "fee_after_in_place_edit", "validate_against_unfiltered_source", "validate_against_plain_dict",
-          "validate_refused_colluding_source", "attach_left_unknown"]
+          "validate_refused_colluding_source", "attach_left_unknown", "build_by_hand_distribute_from_split_pool"]
 
 CACHE = "/wallet/cache"
 
@@ -131,7 +131,8 @@ def gen_plan(rng, tier, index, config=None):
                     target = r.pick([-1, 0, zc - 1, zc, zc + 1, 2 * zc - 1, 2 * zc, 3 * zc + 1, 7])
                     fee = max(0, tin - fixed_ - target)
             steps.append({"op": "build", "id": "x%d" % nbuilt, "spend": spends, "pay": pays, "fee": fee,
-                          "lock_time": r.pick([0, 0, 500000]), "version": r.pick([1, 1, 2])})
+                          "lock_time": r.pick([0, 0, 500000]), "version": r.pick([1, 1, 2]),
+                          "route": r.weighted([("create_tx", 4), ("manual", 1)])})
             nbuilt += 1
         elif op == "validate":
             steps.append({"op": "validate", "tx": "x%d" % r.below(nbuilt), "db": r.weighted([("txdb", 5), ("raw", 3 if faulty else 1), ("dict", 1)])})
@@ -496,8 +497,26 @@ def _op_build(ctx, W, st):
         fee_n = fee
     remaining = total_in - fixed - fee_n
     must_raise = zero > 0 and (remaining < 0 or remaining < zero)
+    def create(objs, payables, **kw):
+        if st.get("route") != "manual":
+            return W.net.tx_utils.create_tx(objs, payables, **kw)
+        # the same thing by hand: the wallet assembles the transaction itself and asks for the split pool to be distributed
+        from pycoin.coins import tx_utils
+        Tx = W.net.tx
+        sps = [o if isinstance(o, Tx.Spendable) else (Tx.Spendable.from_dict(o) if hasattr(o, "keys") else Tx.Spendable.from_text(o))
+               for o in objs]
+        outs_ = [Tx.TxOut(0 if isinstance(p_, str) else p_[1], W.net.contract.for_address(p_ if isinstance(p_, str) else p_[0]))
+                 for p_ in payables]
+        t = Tx(kw["version"], [sp.tx_in() for sp in sps], outs_, kw["lock_time"])
+        t.set_unspents(sps)
+        n_zero = tx_utils.distribute_from_split_pool(t, kw["fee"])
+        if n_zero != zero:
+            ctx.violate("C13", "split-pool-count", {"got": n_zero, "expected": zero})
+        ctx.probe("build_by_hand_distribute_from_split_pool")
+        return t
+
     try:
-        tx = W.net.tx_utils.create_tx(objs, payables, fee=fee, lock_time=st["lock_time"], version=st["version"])
+        tx = create(objs, payables, fee=fee, lock_time=st["lock_time"], version=st["version"])
     except ValueError as e:
         ctx.obs("build", "ValueError")
         if not must_raise:
@@ -512,7 +531,7 @@ def _op_build(ctx, W, st):
         return
     # the same call again with the very same argument objects must give the same transaction
     try:
-        tx_again = W.net.tx_utils.create_tx(objs, payables, fee=fee, lock_time=st["lock_time"], version=st["version"])
+        tx_again = create(objs, payables, fee=fee, lock_time=st["lock_time"], version=st["version"])
         if [o.coin_value for o in tx_again.txs_out] != [o.coin_value for o in tx.txs_out] or tx_again.as_bin() != tx.as_bin():
             ctx.violate("C13", "create-tx-not-repeatable", {"first": [o.coin_value for o in tx.txs_out],
                                                             "second": [o.coin_value for o in tx_again.txs_out]})
